@@ -285,8 +285,12 @@ func (m *MultiReaderAt) ReadAt(p []byte, off int64) (totalN int, err error) {
 		}
 	}
 
-	if remaining > 0 && reachedEnd {
-		return totalN, io.EOF
+	if remaining > 0 {
+		if reachedEnd {
+			return totalN, io.EOF
+		}
+		// a piece other than the last one is shorter than its recorded size
+		return totalN, io.ErrUnexpectedEOF
 	}
 
 	return totalN, nil
